@@ -125,7 +125,8 @@ def run(chk):
     chk.stub('numpy Generator.choice(n, p=prob) -> any index k with prob[k] > 0 (forked per outcome); get_numpy_rng passes the stub through')
     n_crash = 5 if quick else 6
     n_full = 2 if quick else 3
-    chk.bound(crash_free_and_marginals=f'all 2^n-1 ascending subsets for n<=({n_crash})', projection_and_repeat=f'n<={n_full}, every outcome', states='arbitrary complex unit vectors (||q||=1 assumed), fully symbolic')
+    n_proj = 4 if quick else 5      # post-measurement state == normalised projection (identity, no second measurement) up to this size
+    chk.bound(post_measurement_state=f'all subsets for n<={n_proj} plus multi-run subsets of n={n_proj + 1}', crash_free_and_marginals=f'all 2^n-1 ascending subsets for n<=({n_crash})', projection_and_repeat=f'n<={n_full}, every outcome', states='arbitrary complex unit vectors (||q||=1 assumed), fully symbolic')
     chk.out_of_claim('n above the bounds; float rounding (exact-real model): near-zero probabilities')
     extra = rng_globals(None)
     for n in range(1, n_crash + 1):
@@ -135,6 +136,7 @@ def run(chk):
             for subset in itertools.combinations(range(n), r):
                 chk.configurations += 1
                 full = n <= n_full
+                proj_only = (not full) and (n <= n_proj or (n == n_proj + 1 and subset in ((1, 3), (0, 2, 4), (1, 2, 4), (2, 4), (1, 4))))
                 stub = ChoiceRng(f'o{n}_' + ''.join(map(str, subset)) + '_')
 
                 def f_m(stub=stub, subset=subset, full=full):
@@ -173,6 +175,13 @@ def run(chk):
                             chk.add(f'probability[{k_}] >= 0 [n={n},index={subset}]', path.facts, ir.rcmp('le', ir.ZERO, S.as_sc(a).re), key='measure_quantum_vector negative probability', replay=rp)
                         chk.add(f'probabilities sum to 1 for unit vectors [n={n},index={subset}]', [unit] + path.facts, H.eq_sc(sum((S.as_sc(a) for a in prob), SC(ir.ZERO)), 1),
                                 key='measure_quantum_vector probabilities do not sum to 1', replay=rp)
+                    if proj_only:
+                      with path.resume():
+                        sp_ = S.as_sc(prob[o]).sqrt()
+                        proj = project(q, subset, o, n)
+                        q2 = A.plain(v['q2'])
+                        chk.add(f'q2 == projection/sqrt(p) [n={n},index={subset},outcome={o}] (all entries)', pre + path.facts,
+                                ir.band_all(H.eq_sc(S.as_sc(q2[j]), S.as_sc(proj[j]) / sp_) for j in range(len(q2))), key='measure_quantum_vector post-measurement state', replay=rp)
                     if full:
                       with path.resume():
                         sp_ = S.as_sc(prob[o]).sqrt()
